@@ -9,8 +9,8 @@ import StoneVerif.Model.FeNames
       | `{"null":true}` | `{"ty":T}` (nested built-in reference) | `{"user":bool}` (a resolved user type / alias; the
         flag is `isinstance(·, String)`, false for both)
   reply `{"out":"ok","ty":D,"nullable":b}` | `{"out":"spec","reason":r}` | `{"out":"crash","exc":e}`,
-  plus for the outermost reference `"legal"` (legalRef), `"hole"` (hitsHole), `"holes"` (the four hole predicates in
-  the order elem-not-type, float-length, falsy-pattern, far-side), `"crashsite"` (hitsListLengthCrash).
+  plus for the outermost reference `"legal"` (legalRef), `"hole"` (hitsHole), `"holes"` (the two hole predicates in
+  the order falsy-pattern, far-side).
   Nested references are resolved first, left to right, positional before keyword (`_resolve_args`); the glue below
   only sequences the calls of `resolveBuiltin`.
 
@@ -60,7 +60,7 @@ def tyToJson (t : TyVal) (nested : List (Option Json)) : Json :=
   | .float k lo hi => Json.mkObj [("k", k.pyName), ("lo", optJ fvalToJson lo), ("hi", optJ fvalToJson hi)]
   | .string mn mx p => Json.mkObj [("k", "String"), ("min", optJ intJ mn), ("max", optJ intJ mx), ("pattern", optJ argToJson p)]
   | .timestamp f => Json.mkObj [("k", "Timestamp"), ("fmt", f)]
-  | .list e mn mx => Json.mkObj [("k", "List"), ("elem", nest 0 e), ("min", optJ argToJson mn), ("max", optJ argToJson mx)]
+  | .list e mn mx => Json.mkObj [("k", "List"), ("elem", nest 0 e), ("min", optJ intJ mn), ("max", optJ intJ mx)]
   | .map k v => Json.mkObj [("k", "Map"), ("key", nest 0 k), ("val", nest 1 v)]
 
 def reasonStr : Reason → String
@@ -161,12 +161,9 @@ def handleParams (j : Json) : Except String Json := do
   let nullable ← jbool tj "nullable"
   let extra ← match ← shallowArgs rx tj with
     | some (pos, kw) => pure [("legal", Json.bool (legalRef rx k pos kw nullable)),
-                              ("hole", Json.bool (hitsHole k pos kw)),
-                              ("holes", Json.arr #[Json.bool (holeElemNotType k pos), Json.bool (holeFloatLength k kw),
-                                                   Json.bool (holeFalsyPattern k kw), Json.bool (holeFarSide k kw)]),
-                              ("crashsite", Json.bool (hitsListLengthCrash k kw))]
-    | none => pure [("legal", Json.bool false), ("hole", Json.bool false), ("crashsite", Json.bool false),
-                    ("holes", Json.arr #[])]
+                              ("hole", Json.bool (hitsHole k kw)),
+                              ("holes", Json.arr #[Json.bool (holeFalsyPattern k kw), Json.bool (holeFarSide k kw)])]
+    | none => pure [("legal", Json.bool false), ("hole", Json.bool false), ("holes", Json.arr #[])]
   match ← resolveJson rx tj with
   | .ok r => pure (ok ([("out", Json.str "ok"), ("ty", r.dump), ("nullable", Json.bool r.nullable)] ++ extra))
   | .error (.specerr r) => pure (ok ([("out", Json.str "spec"), ("reason", Json.str (reasonStr r))] ++ extra))
